@@ -52,6 +52,7 @@ func ghost_old_rd_pos(r io.Reader) int    { panic("ghost") }
 func ghost_rd_len(r io.Reader) int        { panic("ghost") }
 func ghost_rd_at(r io.Reader, i int) byte { panic("ghost") }
 func ghost_wr_len(w io.Writer) int        { panic("ghost") }
+func ghost_wr_flushed(w io.Writer) int    { panic("ghost") } // bytes known to have been handed to the transport
 func ghost_old_wr_len(w io.Writer) int    { panic("ghost") }
 func ghost_wr_at(w io.Writer, i int) byte { panic("ghost") }
 func ghost_ioerr() error                  { panic("ghost") }
@@ -200,6 +201,13 @@ func ens_WriteMessage_single(v *Protocol, m *Message, err error) bool {
 	return prim_forall(n, func(i int) bool { return ghost_wr_at(w, o+hl+i) == m.Payload[i] })
 }
 
+// a message that was written has left the writer's buffer: everything written so far was handed to the transport
+// (whatever kind of message it is; the peer can only answer what it received)
+//@ ensures (*Protocol).WriteMessage C01.write.flushed
+func ens_WriteMessage_flushed(v *Protocol, err error) bool {
+	return err != nil || ghost_wr_flushed(v.w) == ghost_wr_len(v.w)
+}
+
 //@ ensures (*Protocol).WriteMessage C08.rtmp.write-message
 func ens_WriteMessage_err(err error) bool { return spec_errKeepsRoot(err) }
 
@@ -258,7 +266,7 @@ func spec_registered(v *Protocol, pkt Packet) bool {
 func at_WritePacket_registered(v *Protocol, pkt Packet) bool { return spec_registered(v, pkt) }
 
 // our own Set Chunk Size (5.4.1) takes effect on the writer for the following messages
-//@ ensures (*Protocol).WritePacket C01.scs.own
+//@ ensures (*Protocol).WritePacket C01.scs.own C03.scs.own
 func ens_WritePacket_scs(v *Protocol, pkt Packet, err error) bool {
 	if p, ok := pkt.(*SetChunkSize); ok && err == nil {
 		return v.output.opt.chunkSize == p.ChunkSize
@@ -772,6 +780,19 @@ func ens_onMessage_scs(v *Protocol, m *Message, err error) bool {
 	return v.input.opt.chunkSize == uint32(p[0])<<24|uint32(p[1])<<16|uint32(p[2])<<8|uint32(p[3])
 }
 
+// a well-formed Set Chunk Size (5.4.1: 4 bytes, any size from 1 up; the most significant bit is zero) is accepted
+//@ ensures (*Protocol).onMessageArrivated C02.scs.accept C01.scs.accept
+func ens_onMessage_accept(m *Message, err error) bool {
+	if m.MessageType != MessageTypeSetChunkSize || len(m.Payload) != 4 {
+		return true
+	}
+	p := m.Payload
+	if p[0]&0x80 != 0 || p[0] == 0 && p[1] == 0 && p[2] == 0 && p[3] == 0 {
+		return true
+	}
+	return err == nil
+}
+
 // errors of this step are decoding errors of a control message, not transport errors
 //@ ensures (*Protocol).onMessageArrivated C08.rtmp.on-message
 func ens_onMessage_err(err error) bool { return ghost_ioerr() == ghost_old_ioerr() }
@@ -946,7 +967,7 @@ func req_connectResUnmarshal(v *ConnectAppResPacket) bool { return spec_wfObject
 
 // the command packets built on a name, a transaction id and a command object of any AMF0 kind: a successful decode
 // leaves a packet no longer than its input, so the field that follows is sliced safely
-//@ ensures (*variantCallPacket).UnmarshalBinary C03.variant.size-le-len C07.variant.size-le-len
+//@ ensures (*variantCallPacket).UnmarshalBinary C03.variant.size-le-len C07.variant.size-le-len C05.variant.size-le-len
 func ens_variantUnmarshal(v *variantCallPacket, data []byte, err error) bool { return err != nil || v.Size() <= len(data) }
 
 //@ assigns (*variantCallPacket).UnmarshalBinary v.*, any(amf0.Number), any(amf0.Boolean), any(amf0.String), any(amf0.Object), any(amf0.EcmaArray), any(amf0.StrictArray), any(amf0.objectBase), any(amf0.property)
@@ -957,6 +978,22 @@ func ens_variantUnmarshal(v *variantCallPacket, data []byte, err error) bool { r
 //@ safe (*PlayPacket).UnmarshalBinary C07
 //@ requires (*Protocol).DecodeMessage
 func req_DecodeMessage(v *Protocol, m *Message) bool { return m != nil && req_parseAMF(v) }
+
+// the packet is decoded from the very bytes that selected its type: the whole payload, or, for the AMF3 message types,
+// the payload behind the format byte. (A response whose transaction was consumed by the dispatch and which then fails
+// to decode because the decoder got other bytes is lost for good.)
+func spec_decodeInput(m *Message, b []byte) bool {
+	if m.MessageType == MessageTypeAMF3Command || m.MessageType == MessageTypeAMF3Data {
+		return len(m.Payload) >= 1 && prim_sameslice(b, m.Payload[1:])
+	}
+	return prim_sameslice(b, m.Payload)
+}
+
+//@ at-call (*Protocol).DecodeMessage UnmarshalBinary C03.decode.same-bytes C04.decode.same-bytes
+func at_Decode_unmarshal(m *Message, arg1 []byte) bool { return spec_decodeInput(m, arg1) }
+
+//@ at-call (*Protocol).DecodeMessage parseAMFObject C03.dispatch.same-bytes C04.dispatch.same-bytes
+func at_Decode_parse(m *Message, arg1 []byte) bool { return spec_decodeInput(m, arg1) }
 
 //@ assigns (*Protocol).DecodeMessage v.input.transactions[*], v.input.ltransactions
 //@ inline (*Protocol).DecodeMessage
@@ -1350,6 +1387,50 @@ func ens_WriteC2S2(w io.Writer, s1c1 []byte, err error) bool {
 func ens_WriteC2S2_err(err error) bool { return spec_errKeepsRoot(err) }
 
 //@ assigns (*Handshake).WriteC2S2 ghost.wr(w), ghost.ioerr
+
+// ---------- C03: the typed wait for a message ----------
+// ExpectMessage returns the first arriving message whose type is one of the requested ones (any message when none is
+// requested): what it returns has a requested type, and every message it read and skipped had none of them.
+
+func spec_typeIn(types []MessageType, t MessageType) bool {
+	return !prim_forall(len(types), func(j int) bool { return types[j] != t })
+}
+
+//@ count-calls (*Protocol).ExpectMessage ReadMessage
+//@ requires (*Protocol).ExpectMessage
+func req_ExpectMessage(v *Protocol) bool { return spec_wfReader(v) }
+
+//@ ensures (*Protocol).ExpectMessage C03.expectmsg.type
+func ens_ExpectMessage(types []MessageType, m *Message, err error) bool {
+	if err != nil {
+		return m == nil
+	}
+	return m != nil && (len(types) == 0 || spec_typeIn(types, m.MessageType))
+}
+
+// between two reads: the message read last was skipped because none of the requested types is its type
+func ghost_last_ReadMessage() *Message { panic("ghost") } // the message returned by the latest ReadMessage call
+
+//@ invariant (*Protocol).ExpectMessage 0
+func inv_ExpectMessage0(v *Protocol, types []MessageType) bool {
+	if !spec_wfReader(v) {
+		return false
+	}
+	if ghost_calls("ReadMessage") == 0 {
+		return true
+	}
+	m := ghost_last_ReadMessage()
+	return m != nil && len(types) > 0 && !spec_typeIn(types, m.MessageType)
+}
+
+// inside the scan of the requested types: the ones looked at so far are not the message's type
+//@ invariant (*Protocol).ExpectMessage 1
+func inv_ExpectMessage1(v *Protocol, types []MessageType, m *Message, rangeindex int) bool {
+	return spec_wfReader(v) && m != nil && len(types) > 0 && rangeindex >= -1 && rangeindex < len(types) &&
+		prim_forall(rangeindex+1, func(j int) bool { return types[j] != m.MessageType })
+}
+
+//@ assigns (*Protocol).ExpectMessage v.input.chunks[*], any(chunkStream), any(Message), any(settings), ghost.rd(v.r), ghost.ioerr, ghost.calls
 
 // ---------- C03: the typed wait decodes EVERY message it reads ----------
 // (so a _result that passes by while something else is awaited still consumes its outstanding request, and the packet
